@@ -139,7 +139,26 @@ func drawC09(t *rapid.T) caseC09 {
 				total += s.Len
 			}
 		}
+		if rapid.IntRange(0, 7).Draw(t, "pending2mib") == 0 {
+			// more than 2 MiB pending without a Flush: the chunk is written to
+			// the sink from inside a Write call, and further Writes follow (a
+			// failure there must leave the writer in a state that later calls
+			// can be made in)
+			l.Cfg = gen.Cfg{DefProps: true, DictCap: 65536}
+			a := gen.Seg{Kind: "run", B: byte(rapid.IntRange(0, 255).Draw(t, "p2b")), Len: rapid.IntRange(1100000, 1300000).Draw(t, "p2a")}
+			b := gen.Seg{Kind: "run", B: a.B, Len: rapid.IntRange(900000, 1100000).Draw(t, "p2b2")}
+			x := gen.Seg{Kind: "text", K: 4, Len: rapid.IntRange(100, 6000).Draw(t, "p2c"), Seed: 5}
+			l.Steps = []stepW2{{Op: "write", Seg: &a}, {Op: "write", Seg: &b}, {Op: "write", Seg: &x}, {Op: "close"}}
+			l.Via = ""
+		}
 		c.L2 = &l
+	}
+	if c.XZ != nil && rapid.IntRange(0, 11).Draw(t, "xzpending2mib") == 0 {
+		c.XZ.Cfg = gen.Cfg{DefProps: true, DictCap: 65536, CheckSum: 1}
+		n1, n2 := rapid.IntRange(1100000, 1300000).Draw(t, "xp1"), rapid.IntRange(900000, 1100000).Draw(t, "xp2")
+		c.XZ.Data = gen.Recipe{{Kind: "run", B: 9, Len: n1 + n2}, {Kind: "text", K: 4, Len: 3000, Seed: 6}}
+		c.XZ.Part = gen.Partition{Kind: "cuts", Lens: []int{n1, n2}}
+		c.XZ.Via, c.XZ.Prior = "", 0
 	}
 	return c
 }
@@ -502,7 +521,31 @@ func checkC09Read(c caseC09, rec *ev.Rec) *ev.Failure {
 
 func TestC09(t *testing.T) {
 	rec := ev.New("C09", "fault_enumeration")
-	rec.Rule = "write side: rapid draws a history on the xz / LZMA / LZMA2 writer (configurations, data, partitions, Flush points, sinks with and without WriteByte); a clean run counts the W sink writes; EVERY k < W x {fail once, fail forever} x {no bytes, half of the bytes accepted} is replayed to the end incl. a second Close, every call under recover; oracle: no panic; fault fired => some call returned an error; all calls nil => the sink holds a complete stream the reference decoder maps to the input. Read side: valid files of the three formats x EVERY source offset k in 0..len x {error alone, error together with the last bytes} x piece sizes; oracle: fault reached => error wrapping the injected one, never clean EOF, no panic; evaluations = fault runs; non-trivial = fault fired and k > 0; distinct = hash(scenario, k, mode)"
+	rec.Rule = "enumerated first: an LZMA2 and an xz history with more than 2 MiB pending and further Writes; then write side: rapid draws a history on the xz / LZMA / LZMA2 writer (configurations, data, partitions, Flush points, sinks with and without WriteByte); a clean run counts the W sink writes; EVERY k < W x {fail once, fail forever} x {no bytes, half of the bytes accepted} is replayed to the end incl. a second Close, every call under recover; oracle: no panic; fault fired => some call returned an error; all calls nil => the sink holds a complete stream the reference decoder maps to the input. Read side: valid files of the three formats x EVERY source offset k in 0..len x {error alone, error together with the last bytes} x piece sizes; oracle: fault reached => error wrapping the injected one, never clean EOF, no panic; evaluations = fault runs; non-trivial = fault fired and k > 0; distinct = hash(scenario, k, mode)"
 	rec.Assumptions = []string{"fault writers obey the io.Writer contract (n < len(p) implies err != nil)", "after the first error the remaining calls are still issued; only panics count then"}
+	// more than 2 MiB pending without Flush, then further Writes: the chunk
+	// is written to the sink from inside Write (see drawC09); one LZMA2 and
+	// one xz history deterministically, before the random cases
+	enumerate(t, rec, checkC09, func(try func(caseC09) bool) {
+		a := gen.Seg{Kind: "run", B: 7, Len: 1200000}
+		b := gen.Seg{Kind: "run", B: 7, Len: 1000000}
+		x := gen.Seg{Kind: "text", K: 4, Len: 3000, Seed: 5}
+		cases := []caseC09{
+			{Side: "write", Fmt: "lzma2", L2: &caseC08{Cfg: gen.Cfg{DefProps: true, DictCap: 65536}, Steps: []stepW2{{Op: "write", Seg: &a}, {Op: "write", Seg: &b}, {Op: "write", Seg: &x}, {Op: "close"}}}},
+			{Side: "write", Fmt: "xz", XZ: &caseXZ{Cfg: gen.Cfg{DefProps: true, DictCap: 65536, CheckSum: 1}, Data: gen.Recipe{{Kind: "run", B: 9, Len: 2200000}, {Kind: "text", K: 4, Len: 3000, Seed: 6}}, Part: gen.Partition{Kind: "cuts", Lens: []int{1200000, 1000000}}}},
+		}
+		for i, c := range cases {
+			if i%rec.Shards != rec.Shard {
+				continue
+			}
+			rec.Class("pending_2MiB_then_write")
+			if !try(c) {
+				return
+			}
+		}
+	})
+	if t.Failed() {
+		return
+	}
 	drive(t, rec, drawC09, checkC09)
 }
